@@ -159,6 +159,11 @@ pub fn alphabet(quick: bool) -> Vec<String> {
         raw.push(format!("{} extra", tpl));
         raw.push(format!("{};", tpl));
         raw.push(format!("{}\n", tpl));
+        // cut short after any token, with and without the blank that would introduce the next one
+        for i in 1..toks.len() {
+            raw.push(toks[..i].join(" "));
+            raw.push(format!("{} ", toks[..i].join(" ")));
+        }
     }
     raw.push("".into());
     raw.push(" ".into());
